@@ -12,6 +12,45 @@
 pub use dusk_bls12_381::BlsScalar;
 use serde_json::{json, Value};
 
+/// Counting allocator (replay of allocation-bound counterexamples): records the largest
+/// single request; a request above 1 GiB is reported on stderr and the process aborts
+/// (the request itself is the observation, serving it would only exhaust the sandbox).
+pub mod counting_alloc {
+    use std::alloc::{GlobalAlloc, Layout, System};
+    use std::sync::atomic::{AtomicUsize, Ordering};
+    pub static PEAK_REQUEST: AtomicUsize = AtomicUsize::new(0);
+    pub struct Counting;
+    unsafe impl GlobalAlloc for Counting {
+        unsafe fn alloc(&self, l: Layout) -> *mut u8 {
+            PEAK_REQUEST.fetch_max(l.size(), Ordering::Relaxed);
+            if l.size() > (1usize << 30) {
+                use std::io::Write;
+                let mut buf = [0u8; 64];
+                let mut n = l.size();
+                let mut i = buf.len();
+                while n > 0 {
+                    i -= 1;
+                    buf[i] = b'0' + (n % 10) as u8;
+                    n /= 10;
+                }
+                let mut e = std::io::stderr();
+                let _ = e.write_all(b"ALLOC_REQUEST ");
+                let _ = e.write_all(&buf[i..]);
+                let _ = e.write_all(b"\n");
+                std::process::abort();
+            }
+            System.alloc(l)
+        }
+        unsafe fn dealloc(&self, p: *mut u8, l: Layout) {
+            System.dealloc(p, l)
+        }
+        unsafe fn realloc(&self, p: *mut u8, l: Layout, new: usize) -> *mut u8 {
+            PEAK_REQUEST.fetch_max(new, Ordering::Relaxed);
+            System.realloc(p, l, new)
+        }
+    }
+}
+
 pub mod components;
 pub mod gadgets;
 pub mod kernels;
